@@ -14,6 +14,7 @@ from ..world import World
 
 ID = "C11"
 RULE = (
+    "(a0) Case-folding sweep: every ASCII letter, both case directions, collations {default, i;ascii-casemap, i;octet}, negated and not, as SUMMARY text-match (936 queries, exhaustive). "
     "(a) Grid: for every value type (DATE, floating, UTC, TZID) x request time zone (UTC, Europe/Amsterdam, America/New_York, Pacific/Kiritimati) a collection holding one object per row of the RFC 4791 9.9 "
     "tables (VEVENT x5 rows, VTODO x8, VJOURNAL x3, VFREEBUSY x3, plus shifted copies); for each component type, calendar-query time-ranges whose start/end run over every instant of those objects "
     "(incl. DTSTART+DURATION, DTSTART+P1D, period bounds) -1s/exact/+1s and the open ends: every ordering of (start, end) relative to the component's instants. (b) Hypothesis-generated collections of 3-8 "
@@ -218,6 +219,48 @@ def grid_shard(shard, combos, sample, seed):
         finally:
             world.close()
     out["stats"] = dict(out["stats"])
+    return out
+
+
+def casefold_sweep(shard):
+    """Exhaustive: every ASCII letter, both case directions, three collations, on SUMMARY text-match."""
+    import string
+
+    out = {"evaluations": 0, "nontrivial": set(), "violations": {}, "stats": collections.Counter(), "errors": [], "known": collections.Counter(), "samples": []}
+    if shard != 0:
+        return out
+    world = World(index_threshold=10**9)
+    try:
+        coll = "/user/calendars/fold"
+        world.request("wsgi", "MKCALENDAR", coll)
+        bodies = {}
+        for ch in string.ascii_lowercase:
+            for variant, text in (("lo", f"item {ch}{ch} end"), ("up", f"ITEM {ch.upper()}{ch.upper()} END")):
+                name = f"{variant}-{ch}.ics"
+                raw = ("BEGIN:VCALENDAR\r\nVERSION:2.0\r\nPRODID:-//xv//fold//EN\r\nBEGIN:VEVENT\r\nUID:fold-%s-%s\r\nDTSTART:20200101T000000Z\r\nSUMMARY:%s\r\nEND:VEVENT\r\nEND:VCALENDAR\r\n" % (variant, ch, text)).encode()
+                r = world.request("wsgi", "PUT", coll + "/" + name, [("Content-Type", "text/calendar")], raw)
+                if dav.acknowledged(r):
+                    bodies[name] = raw
+        tz = ZoneInfo("UTC")
+        for ch in string.ascii_lowercase:
+            for needle in (f"{ch}{ch}", f"{ch.upper()}{ch.upper()}", f"m {ch}{ch.upper()} e"):
+                for co in (None, "i;ascii-casemap", "i;octet"):
+                    for neg in (False, True):
+                        flt = {"name": "VCALENDAR", "comps": [{"name": "VEVENT", "props": [{"name": "SUMMARY", "text_match": {"text": needle, "collation": co, "negate": neg}}]}]}
+                        r = query(world, "wsgi", coll, flt, "UTC", data=False)
+                        got, ms = result_names(r)
+                        expected = {n for n, raw in bodies.items() if filterref.calendar_matches(flt, raw, tz)}
+                        out["evaluations"] += 1
+                        out["nontrivial"].add(f"fold|{needle}|{co}|{neg}")
+                        if got is None or set(got) != expected:
+                            out["violations"].setdefault(f"fold:{co}:{'neg' if neg else 'pos'}", (f"text-match {needle!r} collation {co} negate {neg}: got {sorted(got) if got is not None else r.status}, expected {sorted(expected)}", {"engine": "fold", "needle": needle, "collation": co, "negate": neg}))
+    except Exception:
+        import traceback
+
+        out["errors"].append(traceback.format_exc())
+    finally:
+        world.close()
+    out["stats"] = {"fold-queries": out["evaluations"]}
     return out
 
 
@@ -455,6 +498,7 @@ def main(tier, seed):
     combos = list(itertools.product(VTYPES, TZS))
     sample = 12 if tier == "quick" else None
     shards = runner.run_shards(grid_shard, combos=combos, sample=sample, seed=seed)
+    shards += [casefold_sweep(0)]
     gstats = collections.Counter()
     for sr in shards:
         if "error" in sr:
